@@ -148,6 +148,11 @@ def advance (s : State) : State × Obs :=
 
 def stats (s : State) : Obs := .stats s.subs.length s.cfg.usable
 
+/-- the third result of Stats(), classified: 0 when nothing is held or nothing is usable, otherwise the
+    fraction allocated/usable -/
+def utilKind (s : State) : String :=
+  if s.cfg.usable = 0 ∨ s.subs.length = 0 then "zero" else "ratio"
+
 /-- UnmarshalJSON ∘ MarshalJSON into a zero-valued allocator: everything is restored except the hint -/
 def roundtrip (s : State) : State := { s with hint := 0 }
 
